@@ -2,7 +2,8 @@
 
 A seeded history (downloads through the real writer path, publishes via the real
 StreamDescriptor.create_stream + store_stream, "downloaded" streams, delete_blobs with/without
-db deletion, stream deletion, files removed / added behind the manager's back, in-process
+db deletion, stream deletion, files removed / added behind the manager's back (also larger than the
+2 MiB blob limit, also living on a second volume and symlinked into the blob directory), in-process
 restarts, clean / unclean ends) runs on the REAL BlobManager + SQLiteStorage (file-backed, WAL)
 in a forked child that can be made to die (os._exit(137)) at the n-th entry to / exit from
 storage.add_blobs, BlobManager.blob_completed, right before / after the blob file is written and
